@@ -46,7 +46,7 @@ def _decide(agent, markets):
     per_agent = menu.get("per_agent", {}).get(str(aid))
     if per_agent is not None:
         acts = per_agent.get("acts", acts)
-    abt = menu.get("acts_by_time")
+    abt = (per_agent or {}).get("acts_by_time") or menu.get("acts_by_time")
     if abt:
         ks = [int(x) for x in abt if int(x) <= t]
         if ks:
